@@ -18,7 +18,7 @@
   1.5 px = 196608. Tolerances proved, relative to these rays, for every pixel of a circle of diameter
   up to 128: 1.23 px (161290) for every raw angle, 0.087 px (11403) unless the cosine's degree is off
   by one (`Fx.deg_shift`: `cos` adds the I16F16 constant for 90 degrees before rounding to whole
-  degrees, which rounds about one raw angle in 4600 — those within 0.0002 degrees below `k + 1/2` —
+  degrees, which rounds roughly one raw angle in a few thousand — those within 0.0002 degrees below `k + 1/2` —
   to `k + 91`; the normal is then built from `sin k` and `cos (k + 1)`).
   Relative to the EXACT boundary lines of the raw angles one must add the rounding to whole degrees
   — up to half a degree (`fixed_degree_nearest`), i.e. 64 px * sin 0.5 degrees = 0.56 px at the rim of a
@@ -28,7 +28,7 @@
   angle pair). The oracle measures 0.55 px on half-degree angles at d = 127 / 128.
 
   -- [V] `Angle::from_degrees` / `from_radians` (f32 multiply / divide and `I16F16::from_num`: the relation between a user's degrees and the raw bits) is outside the model: carried by correspondence + oracle only
-  -- [V] difference between the boundary LINES (proved, table lines here and exact lines in SineTable.lean) and the boundary RAYS of `SectorAngle.AngularClaim` near the centre, fixed_point build: carried by correspondence + oracle only
+  -- [V] difference between the boundary LINES (proved, table lines here and exact lines in SineTable.lean) and the boundary RAYS of `SectorAngle.AngularClaim`: the two differ within 1.5/sin(phi/2) px of the centre (phi = the angle between the rays), i.e. for sweeps below ~2 degrees or above ~358 degrees along the whole opposite ray (the region of /repo fix caef12f); fixed_point build: carried by correspondence + oracle only
 -/
 import EG.Lemmas.FixedTrigSector
 import EG.Props.C18.Sector
